@@ -18,6 +18,10 @@ Model driver for C06. Line protocol (fields separated by one space; "-" = empty)
   run <lost><clear><safe><pulls><trash> <nsvc> <ncoll> <pagesize> <kind>  (five 0/1 flags; the scenario
       fields only matter to the implementation side) → for "none" and every step of Run that can
       fail: name=err/commit calls made after the failing call ("x" if the step is not reached)
+  gcs <nsvc> <ncoll> <pagesize> <bufs> <idxfail> <badcoll> <pagefail> <other> <hold> <pause>
+      one run of the real GetCurrentState under a controlled interleaving; the model side of the
+      comparison is `gcsacc` below, applied by the plugin to the implementation's output → "gcs"
+  gcsacc <cap> <wpath;…> <ppath> <spath> <res>   → accept | reject | budget
   selftest                    → ok iff stepsOf runSkeleton = runSteps and wellGuarded runSteps
 -/
 import ArvVerif.Base.Bytes
@@ -25,6 +29,7 @@ import ArvVerif.Base.Loop
 import ArvVerif.Model.C06
 import ArvVerif.Model.C06_Index
 import ArvVerif.Model.C06_Run
+import ArvVerif.Model.C06_GCS
 open ArvVerif ArvVerif.C06
 
 def splitL (sep : String) (s : String) : List String := if s == "-" then [] else s.splitOn sep
@@ -181,6 +186,19 @@ def doRun (flags : String) : String :=
     | none => "bad-op"
   | _ => "bad-op"
 
+def parsePath (s : String) : Option (List Nat) := (splitL "." s).mapM nat?
+
+/-- `gcsacc <cap> <wpath;wpath;…> <ppath> <spath> <res>`: is the observed execution of GetCurrentState
+(per-goroutine label paths, result) an execution of the small-step model? -/
+def doGcsAcc (cap ws p s res : String) : String :=
+  match nat? cap, (splitL ";" ws).mapM parsePath, parsePath p, parsePath s, nat? res with
+  | some cap, some ws, some p, some s, some res =>
+    match GCS.accepts cap ws p s (res != 0) 200000 with
+    | some true => "accept"
+    | some false => "reject"
+    | none => "budget"
+  | _, _, _, _, _ => "bad-op"
+
 def step (line : String) : String :=
   match fields line with
   | ["page", ps, cap, pop, sched, fail, cbfail] => doPage ps cap pop sched fail cbfail
@@ -218,6 +236,8 @@ def step (line : String) : String :=
     | some [v] => hexOfNats (handleIndex [v])
     | _ => "bad-op"
   | ["run", flags, _nsvc, _ncoll, _ps, _kind] => doRun flags
+  | ["gcsacc", cap, ws, p, s, res] => doGcsAcc cap ws p s res
+  | "gcs" :: _ => "gcs"
   | ["selftest"] => if stepsOf runSkeleton == runSteps && wellGuarded runSteps then "ok" else "mismatch"
   | _ => "bad-op"
 
